@@ -14,23 +14,65 @@ Definition sie_run (zero : sample) (hist : list (Z * list sample)) : option sie 
 Definition spec_of (zero : sample) (hist : list (Z * list sample)) : list sample :=
   apply_writes zero [] (map (fun w => (Z.to_nat (fst w), snd w)) hist).
 
-(* what C04 asks of the file: record ends strictly increase *)
-Definition sie_increasing_statement : Prop :=
-  forall zero hist h, Forall (fun w => 0 <= fst w) hist ->
-    sie_run zero hist = Some h -> ends_increasing (-1) (recs h).
-
-Theorem sie_increasing_refuted : ~ sie_increasing_statement.
-Proof.
-  intros H.
-  specialize (H [0] [(0, [[1]; [2]]); (1, [[3]]); (1, [[4]])]).
-  vm_compute in H.
-  match type of H with forall h, ?P -> _ => assert (HP : P) end.
-  { repeat constructor; cbn; discriminate. }
-  specialize (H _ HP eq_refl). destruct H as (_ & H2 & _). discriminate H2.
-Qed.
-
 (* the witness history of the former stale-size defect is now handled *)
 Example sie_former_witness_ok :
   exists h, sie_run [0] [(0, [[1]; [0]]); (2, [[0]; [0]; [1]]); (4, [[0]])] = Some h /\
             sie_abs h = spec_of [0] [(0, [[1]; [0]]); (2, [[0]; [0]; [1]]); (4, [[0]])].
 Proof. eexists. split; vm_compute; reflexivity. Qed.
+
+(* ------------------------------------------------------------ the in-core compression loop of _GD_SampIndWrite *)
+Definition lend (prev : Z) (l : list sierec) : Z := fold_left (fun a r => Z.max a (fst r)) l prev.
+
+Lemma expand_from_app prev l1 l2 :
+  sie_expand_from prev (l1 ++ l2) = sie_expand_from prev l1 ++ sie_expand_from (lend prev l1) l2.
+Proof.
+  revert prev. induction l1 as [|[e v] r IH]; intros prev; [reflexivity|].
+  cbn [app sie_expand_from lend fold_left fst]. rewrite IH, <- app_assoc. reflexivity.
+Qed.
+
+Lemma lend_snoc prev l x : lend prev (l ++ [x]) = Z.max (lend prev l) (fst x).
+Proof. unfold lend. now rewrite fold_left_app. Qed.
+
+Lemma expand_snoc prev l e v :
+  sie_expand_from prev (l ++ [(e, v)]) = sie_expand_from prev l ++ repeat v (Z.to_nat (e - lend prev l)).
+Proof. rewrite expand_from_app. cbn [sie_expand_from]. now rewrite app_nil_r. Qed.
+
+(* sample_eqb decides equality of samples *)
+Lemma sample_eqb_true a b : sample_eqb a b = true -> a = b.
+Proof.
+  unfold sample_eqb. intros H. apply andb_prop in H as [L H]. apply Nat.eqb_eq in L.
+  revert b L H. induction a; intros [|y b] L H; try discriminate; auto.
+  cbn in H. apply andb_prop in H as [E H]. apply Z.eqb_eq in E. cbn in E. subst. f_equal. apply IHa; auto.
+Qed.
+
+(* The loop `for (i = 0; i < nelem; ++i) if (memcmp(ptr + i, cur_datum)) ...`: whatever the run
+   structure of the data and of the record being extended, once the last end is set to
+   p + nelem - 1 the in-core records expand to (what the records held up to p + i - 1) ++ data. *)
+Lemma compress_loop_spec prev p : forall data i e cur rest,
+  lend prev (rev rest) <= p + i - 1 ->
+  exists e' cur' rest',
+    compress_loop p i data ((e, cur) :: rest) = (e', cur') :: rest' /\
+    sie_expand_from prev (rev ((p + i + Z.of_nat (length data) - 1, cur') :: rest'))
+    = sie_expand_from prev (rev ((p + i - 1, cur) :: rest)) ++ data.
+Proof.
+  unfold sierec in *. induction data as [|v r IH]; intros i e cur rest H.
+  - exists e, cur, rest. split; [reflexivity|]. rewrite app_nil_r.
+    replace (p + i + Z.of_nat (length (@nil sample)) - 1) with (p + i - 1) by (cbn [length]; lia). reflexivity.
+  - cbn [compress_loop]. destruct (sample_eqb v cur) eqn:Q.
+    + apply sample_eqb_true in Q. subst v.
+      destruct (IH (i + 1) e cur rest ltac:(lia)) as (e' & cur' & rest' & E & X).
+      exists e', cur', rest'. split; [exact E|].
+      replace (p + i + Z.of_nat (length (cur :: r)) - 1) with (p + (i + 1) + Z.of_nat (length r) - 1) by (cbn [length]; lia).
+      rewrite X. cbn [rev]. rewrite !expand_snoc. rewrite <- !app_assoc. f_equal.
+      match goal with |- repeat _ (Z.to_nat ?a) ++ _ = repeat _ (Z.to_nat ?b) ++ _ =>
+        replace (Z.to_nat a) with (S (Z.to_nat b)) by lia; generalize (Z.to_nat b) end.
+      intros n0.
+      induction n0; [reflexivity|]. cbn [repeat app] in *. now rewrite IHn0.
+    + destruct (IH (i + 1) e v ((p + i - 1, cur) :: rest)) as (e' & cur' & rest' & E & X).
+      { cbn [rev]. rewrite lend_snoc. cbn [fst]. lia. }
+      exists e', cur', rest'. split; [exact E|].
+      replace (p + i + Z.of_nat (length (v :: r)) - 1) with (p + (i + 1) + Z.of_nat (length r) - 1) by (cbn [length]; lia).
+      rewrite X. cbn [rev]. rewrite (expand_snoc prev (rev rest ++ [(p + i - 1, cur)])).
+      rewrite <- !app_assoc. f_equal. rewrite lend_snoc. cbn [fst].
+      replace (p + (i + 1) - 1 - Z.max (lend prev (rev rest)) (p + i - 1)) with 1 by lia. reflexivity.
+Qed.
